@@ -76,6 +76,8 @@ def evalOp (op : String) (n : Nat) (ss : List Str) (ns : List Nat) (st : Stack)
   | "pkgnew" => .ok (some (.leaf (lid n 0) (.pkgFundamental s0 st)))
   | "unimpl" => .ok (some (.leaf (lid n 0) (.unimplemented s0 (ss.getD 1 []) (ss.getD 2 []))))
   | "testerr" => .ok (some (.leaf (lid n 0) .testErr))
+  | "grpcstatus" => .ok (some (.leaf (lid n 0) (.grpcStatus (ns.getD 0 0) s0 0)))
+  | "gogostatus" => .ok (some (.leaf (lid n 0) (.gogoStatus (ns.getD 0 0) s0 0)))
   | "uleaf" =>
     match mkUser ss (ns.getD 0 0) with
     | some (u, msg) => .ok (some (.leaf (lid n 0) (.user u msg)))
